@@ -3,7 +3,7 @@
    chython/algorithms/isomorphism.py and chython/_functions.py by the correspondence of harness/checks/C07.py). *)
 From Coq Require Import ZArith List Bool Permutation.
 From Model Require Import PyBase Stereo Iso IsoStereo.
-From Proofs Require Import StereoProofs IsoLazyProofs IsoMatchProofs IsoCompileProofs IsoProofs IsoExt IsoAuto IsoStereoProofs.
+From Proofs Require Import StereoProofs IsoLazyProofs IsoMatchProofs IsoCompileProofs IsoProofs IsoExt IsoAuto IsoStereoProofs IsoStereoExt IsoMatchStereo.
 Import ListNotations.
 Open Scope Z_scope.
 
@@ -493,3 +493,118 @@ Theorem C07_ms_one_unfiltered : forall (B : Type) (beq : B -> B -> bool) p r cl 
     forall g, In g res <-> g = p :: r \/ exists a, In a autos /\ compose_fm (p :: r) a = Ok g.
 Proof. exact ms_one_unfiltered. Qed.
 Print Assumptions C07_ms_one_unfiltered.
+
+(* ---------------------------------------------------------------------------------------------------------------
+   Second extension.  Cis/trans query bonds and allene-type centres of the stereo filter as parity conditions (C12's alkene law):
+   stereogenic_cis_trans[(ot1, ot2)] = (n0, n1, n2, n3): n0, n2 the substituents at one end, n1, n3 at the other; the stored label s
+   refers to (n0, n1).  The filter takes at each end the image of the first query neighbour mapped onto a registered substituent:
+   the a-th (0 or 2) and the b-th (1 or 3).  ct_parity a b = (a = 2) xor (b = 3).
+   --------------------------------------------------------------------------------------------------------------- *)
+Theorem C07_bond_check_parity4 : forall t q mp n m qs on om lbl ot1 ot2 n0 n1 n2 n3 i j s a b,
+  zget mp n = Some on -> zget mp m = Some om ->
+  zget (adj_get (st_bond_stereo t) on) om = Some (Some lbl) ->
+  zget (st_ct_term t) on = Some (ot1, ot2) ->
+  zget (adj_get (st_ct t) ot1) ot2 = Some (n0, n1, Some n2, Some n3) -> NoDup [n0; n1; n2; n3] ->
+  zget (st_ct_centers t) ot1 = Some (i, j) -> zget (adj_get (st_bond_stereo t) i) j = Some (Some s) ->
+  In a [0; 2] -> In b [1; 3] ->
+  (opposite_pair q mp ot1 ot2 (n0, n1, Some n2, Some n3) = Ok (pick (n0, n1, n2, n3) a, pick (n0, n1, n2, n3) b) \/
+   opposite_pair q mp ot1 ot2 (n0, n1, Some n2, Some n3) = Ok (pick (n0, n1, n2, n3) b, pick (n0, n1, n2, n3) a)) ->
+  bond_check t q mp n m qs = Ok (Bool.eqb (xorb s (ct_parity a b)) qs).
+Proof. exact bond_check_parity4. Qed.
+Print Assumptions C07_bond_check_parity4.
+
+(* second substituents that are hydrogens (explicit ones hA, hB; the registry holds None for them) *)
+Theorem C07_bond_check_parityH : forall t q mp n m qs on om lbl ot1 ot2 n0 n1 hA hB i j s a b,
+  zget mp n = Some on -> zget mp m = Some om ->
+  zget (adj_get (st_bond_stereo t) on) om = Some (Some lbl) ->
+  zget (st_ct_term t) on = Some (ot1, ot2) ->
+  zget (adj_get (st_ct t) ot1) ot2 = Some (n0, n1, None, None) ->
+  n0 <> n1 -> isH t n0 = false -> isH t n1 = false -> isH t hA = true -> isH t hB = true ->
+  zget (st_ct_centers t) ot1 = Some (i, j) -> zget (adj_get (st_bond_stereo t) i) j = Some (Some s) ->
+  In a [0; 2] -> In b [1; 3] ->
+  opposite_pair q mp ot1 ot2 (n0, n1, None, None) = Ok (pick (n0, n1, hA, hB) a, pick (n0, n1, hA, hB) b) ->
+  bond_check t q mp n m qs = Ok (Bool.eqb (xorb s (ct_parity a b)) qs).
+Proof. exact bond_check_parityH. Qed.
+Print Assumptions C07_bond_check_parityH.
+
+Theorem C07_atom_check_allene_parity : forall t q mp n qs m ts ot1 ot2 n0 n1 n2 n3 a b,
+  zget mp n = Some m -> zget (st_atom_stereo t) m = Some (Some ts) -> zget (st_th t) m = None ->
+  zget (st_al_term t) m = Some (ot1, ot2) -> zget (st_al t) m = Some (n0, n1, Some n2, Some n3) -> NoDup [n0; n1; n2; n3] ->
+  In a [0; 2] -> In b [1; 3] ->
+  (opposite_pair q mp ot1 ot2 (n0, n1, Some n2, Some n3) = Ok (pick (n0, n1, n2, n3) a, pick (n0, n1, n2, n3) b) \/
+   opposite_pair q mp ot1 ot2 (n0, n1, Some n2, Some n3) = Ok (pick (n0, n1, n2, n3) b, pick (n0, n1, n2, n3) a)) ->
+  atom_check t q mp n qs = Ok (Bool.eqb (xorb ts (ct_parity a b)) qs).
+Proof. exact atom_check_allene_parity. Qed.
+Print Assumptions C07_atom_check_allene_parity.
+
+(* mirror image for bonds: inverting the label of the central bond inverts the verdict; same exceptions *)
+Theorem C07_bond_check_mirror : forall t q mp n m qs on om lbl ot1 ot2 i j s,
+  zget mp n = Some on -> zget mp m = Some om -> zget (adj_get (st_bond_stereo t) on) om = Some (Some lbl) ->
+  zget (st_ct_term t) on = Some (ot1, ot2) ->
+  zget (st_ct_centers t) ot1 = Some (i, j) -> zget (adj_get (st_bond_stereo t) i) j = Some (Some s) ->
+  bond_check (with_bond_label t i j (negb s)) q mp n m qs =
+  match bond_check t q mp n m qs with Ok v => Ok (negb v) | Err e => Err e end.
+Proof. exact bond_check_mirror. Qed.
+Print Assumptions C07_bond_check_mirror.
+
+Theorem C07_example_bond_parity :
+  zget ex_ct_mp 2 = Some 2 /\ zget ex_ct_mp 4 = Some 4 /\
+  zget (adj_get (st_bond_stereo ex_ct_t) 2) 4 = Some (Some true) /\ zget (st_ct_term ex_ct_t) 2 = Some (2, 4) /\
+  zget (adj_get (st_ct ex_ct_t) 2) 4 = Some (1, 5, Some 3, Some 6) /\ NoDup [1; 5; 3; 6] /\
+  zget (st_ct_centers ex_ct_t) 2 = Some (2, 4) /\
+  opposite_pair ex_ct_q ex_ct_mp 2 4 (1, 5, Some 3, Some 6) = Ok (pick (1, 5, 3, 6) 0, pick (1, 5, 3, 6) 1) /\
+  bond_check ex_ct_t ex_ct_q ex_ct_mp 2 4 false = Ok false /\
+  bond_check (with_bond_label ex_ct_t 2 4 false) ex_ct_q ex_ct_mp 2 4 false = Ok true.
+Proof. exact example_bond_parity. Qed.
+Print Assumptions C07_example_bond_parity.
+
+(* ---------------------------------------------------------------------------------------------------------------
+   pattern.get_mapping(target, automorphism_filter=flt, searching_scope=scope, match_stereo=True), the whole call
+   (IsoStereo.get_mapping_match_stereo): the search runs with the image-set filter on; [oracle] = what substructure() /
+   get_fast_mapping() / _chiral_morgan answer for a found embedding (observed; get_fast_mapping is canonical-SMILES equality, C01).
+   --------------------------------------------------------------------------------------------------------------- *)
+(* every yielded map belongs to a found embedding mp: ms_one says how (C07_ms_one_filtered / _unfiltered / _unfiltered_auto: the fast
+   mapping of mp, then -- filter off -- its compositions with the automorphisms of the matched substructure); all of these are yielded *)
+Theorem C07_match_stereo_yield : forall (QA A QB B B' : Type) (amatch : QA -> A -> bool) (bmatch : QB -> B -> bool) (beq : B' -> B' -> bool)
+    q_atoms q_bonds o_atoms o_bonds tcomps scope (oracle : list (mapping * ms_obs B')) flt res,
+  get_mapping_match_stereo amatch bmatch beq q_atoms q_bonds o_atoms o_bonds tcomps flt scope oracle = Ok res ->
+  exists found, mol_get_mapping amatch bmatch q_atoms q_bonds o_atoms o_bonds tcomps true scope = Ok found /\
+    forall g, In g res <->
+      exists mp fm cl bd l, In mp found /\ oracle_get oracle mp = Ok (fm, cl, bd) /\ ms_one beq flt fm cl bd = Ok l /\ In g l.
+Proof. exact match_stereo_yield. Qed.
+Print Assumptions C07_match_stereo_yield.
+
+(* filter off, matched substructure well-formed: the fast mapping, then exactly its compositions with the non-identity class
+   automorphisms of the substructure (same vocabulary as C07_automorphism_mapping_exact) *)
+Theorem C07_ms_one_unfiltered_auto : forall (B : Type) (beq : B -> B -> bool) p r cl (bd : list (Z * list (Z * B))) res,
+  wf_adj cl bd -> ms_one beq false (Some (p :: r)) cl bd = Ok res ->
+  exists comps clo, compile_query cl bd = Ok (comps, clo) /\
+    forall g, In g res <->
+      g = p :: r \/ exists a, (class_automorphism B beq cl bd comps a /\ exists x y, In (x, y) a /\ x <> y) /\ compose_fm (p :: r) a = Ok g.
+Proof. exact ms_one_unfiltered_auto. Qed.
+Print Assumptions C07_ms_one_unfiltered_auto.
+
+(* automorphism_filter=True, oracle keeping the image atoms (fm maps the pattern onto the atoms the embedding covers; evaluated on every
+   observed oracle by the correspondence): no two yielded maps cover the same atoms -- in particular no duplicates -- and each covers
+   the atoms of a found embedding *)
+Theorem C07_match_stereo_filtered_distinct : forall (QA A QB B B' : Type) (amatch : QA -> A -> bool) (bmatch : QB -> B -> bool)
+    (beq : B' -> B' -> bool) q_atoms q_bonds o_atoms o_bonds tcomps scope (oracle : list (mapping * ms_obs B')),
+  (forall mp fm cl bd, oracle_get oracle mp = Ok (Some fm, cl, bd) -> forall y, In y (image fm) <-> In y (image mp)) ->
+  forall res, get_mapping_match_stereo amatch bmatch beq q_atoms q_bonds o_atoms o_bonds tcomps true scope oracle = Ok res ->
+  ForallOrdPairs (fun a b => ~ (forall y, In y (image a) <-> In y (image b))) res /\ NoDup res /\
+  exists found, mol_get_mapping amatch bmatch q_atoms q_bonds o_atoms o_bonds tcomps true scope = Ok found /\
+                forall g, In g res -> exists mp, In mp found /\ (forall y, In y (image g) <-> In y (image mp)).
+Proof. exact match_stereo_filtered_distinct. Qed.
+Print Assumptions C07_match_stereo_filtered_distinct.
+
+(* the found embeddings are the embeddings of the theorems above, one per set of image atoms, none lost *)
+Theorem C07_match_stereo_found_embeddings : forall (QA A QB B : Type) (amatch : QA -> A -> bool) (bmatch : QB -> B -> bool)
+    q_atoms q_bonds o_atoms o_bonds tcomps scope,
+  wf_adj q_atoms q_bonds -> wf_adj o_atoms o_bonds -> tcomps_ok A B o_atoms o_bonds tcomps ->
+  forall comps clo, compile_query q_atoms q_bonds = Ok (comps, clo) ->
+  exists found, mol_get_mapping amatch bmatch q_atoms q_bonds o_atoms o_bonds tcomps true scope = Ok found /\
+    (forall mp, In mp found -> multi_embedding QA A QB B amatch bmatch q_atoms q_bonds o_atoms o_bonds tcomps comps scope mp) /\
+    (forall f, multi_embedding QA A QB B amatch bmatch q_atoms q_bonds o_atoms o_bonds tcomps comps scope f ->
+               exists mp, In mp found /\ (forall y, In y (image f) <-> In y (image mp))).
+Proof. exact match_stereo_found_embeddings. Qed.
+Print Assumptions C07_match_stereo_found_embeddings.
